@@ -126,6 +126,29 @@ def rule_pair_entries(pairs):
         f = Coefficient(V)
         return [f * v * dx(degree=0) + f * f * v * dx(degree=5) + f * v * dx(degree=3, scheme="GLL")]
     out.append(corpus.Entry("rules_quad_schemes", quad, tags=("c11",)))
+
+    # the vertex scheme on facet (and interior facet) measures of simplices and hypercubes
+    for cell in ("triangle", "tetrahedron", "quadrilateral", "hexahedron"):
+        def vfacet(cell=cell):
+            fam = "Q" if cell in ("quadrilateral", "hexahedron") else "P"
+            m, V = corpus.space(cell, fam, 1)
+            v = TestFunction(V)
+            f = Coefficient(V)
+            return [f * v * ufl.ds(degree=1, scheme="vertex") + f * f * v * ufl.ds(degree=3)
+                    + f("+") * v("-") * ufl.dS(degree=1, scheme="vertex") + f * v * dx(degree=1, scheme="vertex")]
+        out.append(corpus.Entry(f"vertex_scheme_facets_{cell}", vfacet, tags=("c11",)))
+
+    # a quadrature element in ONE integral of a subdomain must not change the rule of the others
+    for cell, deg in (("interval", 3), ("triangle", 2), ("tetrahedron", 2)):
+        def qel(cell=cell, deg=deg):
+            m, V = corpus.space(cell, "P", 1)
+            Q = FunctionSpace(m, basix.ufl.quadrature_element(cell, degree=deg))
+            v = TestFunction(V)
+            fq = Coefficient(Q)
+            g = Coefficient(V)
+            x = SpatialCoordinate(m)
+            return [fq * x[0] * v * dx + g * g * g * v * dx(degree=4) + g * v * dx(degree=1)]
+        out.append(corpus.Entry(f"quadrature_element_mixed_rules_{cell}", qel, tags=("c11",)))
     return out
 
 
